@@ -61,6 +61,10 @@ type tsim struct {
 	errOnMissing bool
 	useShimCommit bool
 	liveAtBranch bool // knob: read a key that ends at a valueless in-memory branch through the live instance
+	longKeys     bool // knob: keys of 32 bytes or more (Put/Delete append the node hash into the caller's key buffer)
+	val32        bool // knob: V1 values of exactly 32 bytes (NewValue hashes them, the spec keeps them inline)
+	delPrefix    bool // knob: Delete of an absent key that is a proper prefix of stored keys (removes the longer key's value)
+	tag          string // class suffix for the next commit check
 	null  hash.H256
 	cps   []commitPoint
 	dirty int  // operations since the last commit
@@ -145,6 +149,10 @@ func runTrieDB(k *kernel.K) {
 	s.errOnMissing = k.Bool(1, 3, "knob-missing-key-is-ErrNotFound")
 	s.useShimCommit = k.Bool(1, 3, "knob-commit-directly")
 	s.liveAtBranch = knob(k, 1, 8, "live-get-at-valueless-branch")
+	s.longKeys = knob(k, 1, 5, "keys-of-32-bytes-or-more")
+	s.val32 = knob(k, 1, 5, "v1-values-of-exactly-32-bytes")
+	s.delPrefix = knob(k, 1, 5, "delete-absent-key-that-prefixes-stored-keys")
+	s.g.noLong = !s.longKeys
 	if s.cache {
 		k.Probe("cache-on")
 	} else {
@@ -186,6 +194,9 @@ func (s *tsim) viol(oracle, class, f string, a ...any) {
 func (s *tsim) put() {
 	k := s.k
 	key, val := s.g.key(), s.g.val()
+	if s.ver == su.V1 && len(val) == 32 && !s.val32 {
+		val = val[:31]
+	}
 	old, had := s.model.Get(key)
 	k.Event("put", "%s=%s", hx(key), hx(val))
 	if had && bytes.Equal(old, val) {
@@ -201,7 +212,7 @@ func (s *tsim) put() {
 		k.Probe("v1-value-of-exactly-33-bytes")
 	}
 	if err := s.t.Put(cp(key), cp(val)); err != nil {
-		s.viol("put", "put-failed", "Put(%s, %d bytes) failed without an injected fault: %v", hx(key), len(val), err)
+		s.viol("put", "put-failed"+s.tags(), "Put(%s, %d bytes) failed without an injected fault: %v", hx(key), len(val), err)
 	}
 	s.model.Put(key, val)
 	s.dirty++
@@ -221,9 +232,16 @@ func (s *tsim) del() {
 	if had {
 		before = modelBranches(s.model)
 	}
+	absentPrefix := !had && len(s.model.KeysWithPrefix(key)) > 0
+	if absentPrefix {
+		if !s.delPrefix {
+			return
+		}
+		k.Probe("delete-absent-key-that-prefixes-stored-keys")
+	}
 	k.Event("delete", "%s present=%v", hx(key), had)
 	if err := s.t.Delete(cp(key)); err != nil {
-		s.viol("delete", "delete-failed", "Delete(%s) failed without an injected fault: %v", hx(key), err)
+		s.viol("delete", "delete-failed"+s.tags(), "Delete(%s) failed without an injected fault: %v", hx(key), err)
 	}
 	s.model.Delete(key)
 	s.dirty++
@@ -237,6 +255,10 @@ func (s *tsim) del() {
 		}
 	}
 	s.liveGet(key)
+	if absentPrefix {
+		s.tag = "-after-delete-of-absent-key-that-prefixes-stored-keys"
+		s.commit(true)
+	}
 }
 
 // liveGet reads through the instance that holds uncommitted changes. The
@@ -304,6 +326,7 @@ func (s *tsim) commit(fresh bool) hash.H256 {
 		if s.ver == su.V1 && hasLen(s.model, 32) {
 			class += "-with-value-of-exactly-32-bytes"
 		}
+		class += s.tags()
 		s.viol("root", class, "after commit #%d (v%d, %d keys): Hash() = %x, spec root %x", s.commits, s.ver, s.model.Len(), root.Bytes()[:6], want[:6])
 	}
 	if s.model.Len() == 0 && root != s.null {
@@ -320,8 +343,20 @@ func (s *tsim) commit(fresh bool) hash.H256 {
 		}
 		s.checkFresh(s.disk, root, s.model, "after commit")
 	}
-	s.dirty, s.merged = 0, false
+	s.dirty, s.merged, s.tag = 0, false, ""
 	return root
+}
+
+// tags: class suffixes naming the knob-guarded input classes present in the run.
+func (s *tsim) tags() string {
+	t := s.tag
+	for _, key := range s.g.keys {
+		if len(key) >= 32 {
+			t += "-with-key-of-32-bytes-or-more"
+			break
+		}
+	}
+	return t
 }
 
 // probeKeys: every key of the alphabet, every stored key, and for each stored
@@ -373,9 +408,9 @@ func (s *tsim) checkFresh(d *simdisk.Disk, root hash.H256, m *su.RefMap, why str
 					class = "fresh-get-hashed-value-absent"
 				}
 			}
-			s.viol("fresh-get", class, "fresh TrieDB at root %x (%s, v%d): Get(%s) = %s, committed map has %s", root.Bytes()[:6], why, s.ver, hx(key), hx(got), hx(want))
+			s.viol("fresh-get", class+s.tags(), "fresh TrieDB at root %x (%s, v%d): Get(%s) = %s, committed map has %s", root.Bytes()[:6], why, s.ver, hx(key), hx(got), hx(want))
 		case !ok && got != nil:
-			s.viol("fresh-get", "fresh-get-absent-key-present", "fresh TrieDB at root %x (%s): Get(%s) = %s but the key is absent", root.Bytes()[:6], why, hx(key), hx(got))
+			s.viol("fresh-get", "fresh-get-absent-key-present"+s.tags(), "fresh TrieDB at root %x (%s): Get(%s) = %s but the key is absent", root.Bytes()[:6], why, hx(key), hx(got))
 		}
 	}
 	k.Probe("fresh-instance-checked")
